@@ -38,6 +38,7 @@ type Plan struct {
 	Act    Action
 	TornN  int   // prefix length for Torn
 	Sticky bool  // keep failing every later occurrence of Label too (default: fire once)
+	NoTrace bool // do not record the site trace (long concurrent runs)
 	DelayP int   // if >0: per-site probability (percent) of a 0-3ms delay (interleaving widening)
 	Rnd    *rand.Rand
 
@@ -113,7 +114,9 @@ func hit(label string) (Action, *Plan) {
 	}
 	p.counts[label]++
 	n := p.counts[label]
-	p.trace = append(p.trace, label)
+	if !p.NoTrace {
+		p.trace = append(p.trace, label)
+	}
 	act := None
 	if p.Label == label && p.Act != None && (n == p.Ord || (p.Sticky && n > p.Ord)) {
 		act = p.Act
